@@ -98,6 +98,10 @@ func (hpd *httpProxyDialer) DialContext(ctx context.Context, network string, add
 	if resp.StatusCode != http.StatusOK {
 		_ = conn.Close()
 		f := strings.SplitN(resp.Status, " ", 2)
+		if len(f) < 2 {
+			// No reason phrase in the status line.
+			return nil, errors.New(resp.Status)
+		}
 		return nil, errors.New(f[1])
 	}
 	return conn, nil
